@@ -24,7 +24,7 @@
 From Coq Require Import ZArith NArith List String Bool Lia.
 From M4 Require Import Base.Bits Lin.Mat Lin.Ops Word.WMat Word.WOps Leaf.CMini Leaf.CMiniAcc Leaf.Gen_observers
   Leaf.AccessSpecs Leaf.CMiniAcc2 Leaf.ObsSpecs Leaf.ObsSpecs4 Leaf.ObsSpecs5 Leaf.ObsSpecs7 Leaf.ObsSpecs8
-  Leaf.ObsSpecs9 Leaf.ObsSpecs10.
+  Leaf.ObsSpecs9 Leaf.ObsSpecs10 Leaf.ObsSpecs13.
 Import ListNotations.
 Local Open Scope Z_scope.
 
@@ -66,18 +66,20 @@ Print Assumptions C17t_cmp.
     local block (block 2 of [mem2], initially uninitialised): [pivot_args] passes &cell0, &cell1.  The function
     returns 1 and writes row and column of the pivot into exactly these cells ([pivot_cells]), or returns 0 and
     writes nothing; the word array is unchanged.
-    PARTIAL: proven for the path "fewer than 64 columns left" (ncols - start_col < 64: mzd_read_bits per row);
-    the three paths for ncols - start_col >= 64 are covered by evaluation only ([find_pivot_run_example]).
-    The hypothesis start_col + 64 <= INT_MAX is necessary: `j += m4ri_radix` (mzd.c:1692) overflows `int`
-    otherwise ([C17t_find_pivot_overflow]: undefined behaviour for a matrix with 2^31 - 1 columns). *)
-Theorem C17t_find_pivot_partial : forall h fl mem r0 c0,
+    All four paths of the C function are covered (fewer than 64 columns left: mzd_read_bits per row; otherwise
+    first word under mask_begin, complete words, last word under mask_end; each with the m4ri_lesser_LSB scan,
+    its early `break`, and the bit search).
+    The hypothesis start_col + 64 <= INT_MAX (needed only when fewer than 64 columns are left) is necessary:
+    `j += m4ri_radix` (mzd.c:1692) overflows `int` otherwise ([C17t_find_pivot_overflow]: undefined behaviour,
+    for a matrix with 2^31 - 1 columns). *)
+Theorem C17t_find_pivot : forall h fl mem r0 c0,
   valid h mem -> c_dom h fl mem -> (r0 <= h_nrows h)%nat -> (c0 < h_ncols h)%nat ->
-  (h_ncols h - c0 < 64)%nat -> Z.of_nat c0 + 64 <= 2147483647 ->
+  ((h_ncols h - c0 < 64)%nat -> Z.of_nat c0 + 64 <= 2147483647) ->
   run zops obs_prog LFUEL DEPTH "mzd_find_pivot" (pivot_args h fl r0 c0) (mem2 (words mem) 2 TLeaf) =
   Ok (Some (Vint (match find_pivot (abs h mem) r0 c0 with Some _ => 1 | None => 0 end)),
       mem2 (words mem) 2 (pivot_cells (find_pivot (abs h mem) r0 c0))).
-Proof. exact mzd_find_pivot_spec_partial. Qed.
-Print Assumptions C17t_find_pivot_partial.
+Proof. exact mzd_find_pivot_spec. Qed.
+Print Assumptions C17t_find_pivot.
 
 Example C17t_find_pivot_overflow :
   run zops obs_prog LFUEL DEPTH "mzd_find_pivot"
@@ -148,10 +150,12 @@ Proof. vm_compute. repeat split; reflexivity. Qed.
 (** non-vacuity of the pivot and writer theorems (windows with foreign bits of the parent in the last words) *)
 Example C17t_find_pivot_hypotheses_satisfiable :
   let h := window_hdr (init_hdr 6 200) 1 64 4 134 in
-  let mem := repeat 0%N 30 in
-  valid h mem /\ c_dom h 4 mem /\ (1 <= h_nrows h)%nat /\ (40 < h_ncols h)%nat /\ (h_ncols h - 40 < 64)%nat /\
-  Z.of_nat 40 + 64 <= 2147483647 /\ h_off h = 5%nat.
-Proof. exact find_pivot_dom_example. Qed.
+  valid h ex_mem /\ c_dom h 4 ex_mem /\ (1 <= h_nrows h)%nat /\
+  ((3 < h_ncols h)%nat /\ ((h_ncols h - 3 < 64)%nat -> Z.of_nat 3 + 64 <= 2147483647)) /\
+  ((40 < h_ncols h)%nat /\ ((h_ncols h - 40 < 64)%nat -> Z.of_nat 40 + 64 <= 2147483647)) /\
+  run zops obs_prog LFUEL DEPTH "mzd_find_pivot" (pivot_args h 4 1 3) (mem2 (words ex_mem) 2 TLeaf) =
+  Ok (Some (Vint 1), mem2 (words ex_mem) 2 (pivot_cells (Some (2, 50)%nat))).
+Proof. exact find_pivot_full_dom_example. Qed.
 
 Example C17t_find_pivot_run :
   let h := window_hdr (init_hdr 6 200) 1 64 4 134 in
